@@ -215,6 +215,12 @@ def handle (j : Json) : M Json := do
         | .m l => Json.arr (l.map (fun r => Json.arr (r.map Json.bool).toArray)).toArray
       pure (Json.mkObj [("sat", outJ (Poly.ineqsSatisfied p pts)), ("sep", outJ (Poly.separableP p pts)),
                         ("rowsep", outJ (Poly.ineqSeparatePoints p pts))])
+  | "errors" => do
+      let t ← parseTree (← fld j "t")
+      let name : P.VErr → String := fun e => match e with
+        | .circular => "CIRCULAR_DEPENDENCIES" | .ambivalent => "AMBIVALENT_VARIABLE_DEFINITIONS"
+        | .nonUnique => "NON_UNIQUE_SUB_PROPOSITION_SET"
+      pure (Json.mkObj [("errs", Json.arr ((P.errors t).map (fun e => Json.str (name e))).toArray)])
   | "flatten" => do
       let t ← parseTree (← fld j "t")
       pure (Json.mkObj [("res", Json.arr ((P.flatIB t).map idBndJ).toArray)])
